@@ -74,9 +74,19 @@ def convert_series_to_internal_type(
                 raise ValueError(basic_error_msg + " This conversion is not supported.")
             else:
                 try:
-                    out = out.astype(float)
+                    converted = out.astype(float)
                 except ValueError as e:
                     raise ValueError(basic_error_msg) from e
+                # Integers above 2**53 cannot be represented exactly
+                if is_integer_dtype(out) and not np.array_equal(
+                    converted.astype(out.dtype), out
+                ):
+                    raise ValueError(
+                        basic_error_msg + " This conversion is only supported if all"
+                        " integers can be represented exactly as floating point"
+                        " numbers."
+                    )
+                out = converted
 
         # Conversion to int
         elif internal_type == int:
